@@ -23,6 +23,14 @@
 (* code (sparse files) and handed to the property layer by the trace spec.  *)
 (* Variant "orig" = tree before the fix: commits (DESIGN F3 + the KeyError  *)
 (* of the mismatch message on in-progress metadata), "fixed" = current.     *)
+(* Deferred opening: `Reader(file, open=False)` may be constructed while    *)
+(* the file is still being written (or before a truncated copy replaces     *)
+(* it) and opened later; `cbytes` is the size the constructor saw.  The     *)
+(* code before the third fix: commit compared the metadata with that cached *)
+(* size (variant "cachedsize"; "orig" did so too): a file that matched its  *)
+(* metadata at construction and changed afterwards was opened with the      *)
+(* announced frame count (np.memmap raised after a shrink, stale count      *)
+(* after growth).  "fixed" takes the size when the file is opened.          *)
 (*                                                                         *)
 (* Property layer: OpenSucceedsP, ExposedP, WithinFileP, DurationP, ReadP   *)
 (* speak about the outcome of the constructor and the values handed out.    *)
@@ -38,9 +46,10 @@ Absent == -1           \* metadata of a running acquisition: no fileSizeBytes / 
 
 VARIABLES F, bytes, meta, kind, quiet,     \* the recording and how it is opened
           pc,                              \* "writing" | "closed" | "opened" | "raised"
-          ns, rlf, ftsq, ftsw              \* what the reader hands out after Open
+          ns, rlf, ftsq, ftsw,             \* what the reader hands out after Open
+          cbytes                           \* size seen by a constructor that ran early (open=False); -1: none
 
-vars == <<F, bytes, meta, kind, quiet, pc, ns, rlf, ftsq, ftsw>>
+vars == <<F, bytes, meta, kind, quiet, pc, ns, rlf, ftsq, ftsw, cbytes>>
 
 Min2(a, b) == IF a < b THEN a ELSE b
 Max2(a, b) == IF a > b THEN a ELSE b
@@ -89,6 +98,16 @@ ImplOutcome(k, f, q, r, m, qt) ==
     ELSE IF k # "cbin" /\ ImplNs(k, f, q, r, m) > q THEN "raised"      \* ns * f > q * f + r,  r < f
     ELSE "opened"
 
+\* deferred opening of an offline Reader: (cq, cr) = frames / trailing bytes the constructor saw (cq = -1: constructed when
+\* opened).  Before the fix the mismatch test used that cached size, the frame count always came from the size at open().
+Stale(k, cq) == Variant \in {"orig", "cachedsize"} /\ k = "offline" /\ cq >= 0
+ImplNsD(k, f, q, r, m, cq, cr) ==
+    IF Stale(k, cq) THEN (IF m = cq /\ cr = 0 THEN m ELSE q) ELSE ImplNs(k, f, q, r, m)
+ImplFtsD(k, f, q, r, m, cq, cr) ==
+    IF Stale(k, cq) THEN (IF m = cq /\ cr = 0 THEN <<m, TRUE>> ELSE <<q, TRUE>>) ELSE ImplFts(k, f, q, r, m)
+ImplOutcomeD(k, f, q, r, m, qt, cq, cr) ==
+    IF Stale(k, cq) THEN (IF ImplNsD(k, f, q, r, m, cq, cr) > q THEN "raised" ELSE "opened") ELSE ImplOutcome(k, f, q, r, m, qt)
+
 -----------------------------------------------------------------------------
 (* the state machine *)
 
@@ -100,33 +119,45 @@ Init == /\ F \in FSet
         /\ quiet \in BOOLEAN
         /\ meta \in (0..MaxMeta) \cup (IF kind = "online" THEN {Absent} ELSE {})
         /\ pc = "writing"
-        /\ ns = -1 /\ rlf = -1 /\ ftsq = -1 /\ ftsw = TRUE
+        /\ ns = -1 /\ rlf = -1 /\ ftsq = -1 /\ ftsw = TRUE /\ cbytes = -1
+
+\* Reader(file, open=False) while the file is still being written
+Construct == /\ pc = "writing" /\ kind = "offline" /\ cbytes = -1 /\ bytes >= 1
+             /\ cbytes' = bytes
+             /\ UNCHANGED <<F, bytes, meta, kind, quiet, pc, ns, rlf, ftsq, ftsw>>
+\* a shorter copy replaces the file the constructor saw
+Truncate == /\ pc = "writing" /\ cbytes >= 0
+            /\ \E b \in F..(bytes - 1) : bytes' = b
+            /\ pc' = "closed"
+            /\ UNCHANGED <<F, meta, kind, quiet, ns, rlf, ftsq, ftsw, cbytes>>
 
 \* the acquisition writes; a compressed stream only ever holds whole frames
 WriterAppend == /\ pc = "writing"
                 /\ bytes + (IF kind = "cbin" THEN F ELSE 1) < (MaxFrames + 1) * F
                 /\ bytes' = bytes + (IF kind = "cbin" THEN F ELSE 1)
-                /\ UNCHANGED <<F, meta, kind, quiet, pc, ns, rlf, ftsq, ftsw>>
+                /\ UNCHANGED <<F, meta, kind, quiet, pc, ns, rlf, ftsq, ftsw, cbytes>>
 
 \* ... and stops (end of acquisition, crash, truncated copy): from one complete frame up
 WriterStop == /\ pc = "writing" /\ bytes >= F
               /\ pc' = "closed"
-              /\ UNCHANGED <<F, bytes, meta, kind, quiet, ns, rlf, ftsq, ftsw>>
+              /\ UNCHANGED <<F, bytes, meta, kind, quiet, ns, rlf, ftsq, ftsw, cbytes>>
 
 Open == /\ pc = "closed"
         /\ LET q == bytes \div F
                r == bytes % F
-               out == ImplOutcome(kind, F, q, r, meta, quiet)
+               cq == IF cbytes < 0 THEN -1 ELSE cbytes \div F
+               cr == IF cbytes < 0 THEN 0 ELSE cbytes % F
+               out == ImplOutcomeD(kind, F, q, r, meta, quiet, cq, cr)
            IN /\ pc' = out
               /\ IF out = "opened"
-                 THEN /\ ns' = ImplNs(kind, F, q, r, meta)
+                 THEN /\ ns' = ImplNsD(kind, F, q, r, meta, cq, cr)
                       /\ rlf' = ns'                                  \* rl = ns / fs
-                      /\ ftsq' = ImplFts(kind, F, q, r, meta)[1]
-                      /\ ftsw' = ImplFts(kind, F, q, r, meta)[2]
+                      /\ ftsq' = ImplFtsD(kind, F, q, r, meta, cq, cr)[1]
+                      /\ ftsw' = ImplFtsD(kind, F, q, r, meta, cq, cr)[2]
                  ELSE UNCHANGED <<ns, rlf, ftsq, ftsw>>
-        /\ UNCHANGED <<F, bytes, meta, kind, quiet>>
+        /\ UNCHANGED <<F, bytes, meta, kind, quiet, cbytes>>
 
-Next == WriterAppend \/ WriterStop \/ Open
+Next == WriterAppend \/ WriterStop \/ Construct \/ Truncate \/ Open
 
 Spec == Init /\ [][Next]_vars
 
@@ -174,12 +205,16 @@ MetaDurationWhole == (pc = "opened" /\ kind # "online") => (ftsw /\ ftsq = ns)
 -----------------------------------------------------------------------------
 (* spec -> code: every case of the box with what the property layer expects of it *)
 MaxF == CHOOSE f \in FSet : \A g \in FSet : g <= f
+\* (cq, cr): what a constructor that ran early saw (-1: none); deferred cases for the offline Reader only
 Cases == {c \in [kind : Kinds, F : FSet, q : 1..MaxFrames, r : 0..(MaxF - 1),
-                 meta : (0..MaxMeta) \cup {Absent}, quiet : BOOLEAN] :
+                 meta : (0..MaxMeta) \cup {Absent}, quiet : BOOLEAN, cq : -1..(MaxFrames + 1), cr : {0, 1}] :
             /\ c.r < c.F
             /\ c.kind = "cbin" => c.r = 0 /\ ~c.quiet
-            /\ c.meta = Absent => c.kind = "online"}
+            /\ c.meta = Absent => c.kind = "online"
+            /\ c.cq = -1 => c.cr = 0
+            /\ c.cq >= 0 => /\ c.kind = "offline" /\ c.quiet /\ c.r \in {0, 1, c.F - 1} /\ c.cq * c.F + c.cr # c.q * c.F + c.r
+                            /\ c.meta \in {c.cq, c.q, c.q + 1}}
 Expect(c) == [outcome |-> "opened", ns |-> c.q, rlf |-> c.q,
-              impl_outcome |-> ImplOutcome(c.kind, c.F, c.q, c.r, c.meta, c.quiet),
-              impl_ns |-> ImplNs(c.kind, c.F, c.q, c.r, c.meta)]
+              impl_outcome |-> ImplOutcomeD(c.kind, c.F, c.q, c.r, c.meta, c.quiet, c.cq, c.cr),
+              impl_ns |-> ImplNsD(c.kind, c.F, c.q, c.r, c.meta, c.cq, c.cr)]
 =============================================================================
